@@ -2,6 +2,7 @@ import LenaModel.DriverUtil
 import LenaModel.Model.C16
 import LenaModel.Model.C16Spec
 import LenaModel.Model.C16X
+import LenaModel.Model.C16P
 /-! Model driver for C16.  Every request carries the adapter arguments
   "caps":[run,fill,request,compute,reset] (booleans: which callables the wrapped element has),
   "bufsize":int, "reset":null|bool, "bi":bool, "bo":bool, "yor":bool
@@ -25,7 +26,10 @@ Extended model (Model/C16X.lean); "el" additionally {"stop":int|null,"stores":bo
 value >= stop, after/without storing it), "ev":"call"|"request" (where the adapter iterates generator objects):
   {"op":"opsx",...,"ops":[int|null|"r"]} ("r" = FillRequest.reset()) -> {"t":[[out|null,raised,n_count,len_in,len_out],..]}
   {"op":"splitx",...,"m","xs"} -> {"r":[[ints]],"raised":bool}
-  {"op":"runx",...,"xs"} -> {"r":[[ints]],"raised":bool}   (_run_fill_compute) -/
+  {"op":"runx",...,"xs"} -> {"r":[[ints]],"raised":bool}   (_run_fill_compute)
+  {"op":"runp",...,"j":int|null,"xs"} -> {"r":..,"spin":bool,"spec":..}   (Model/C16P.lean: Run element reading j values)
+Further optional fields: "frac" (init: bufsize != int(bufsize)), el."kpar", "xs2" (run / ops / split: a second flow on the
+same object), "apre"/"apost" (split: elements around the adapter in the branch). -/
 open Lean Lena.Drv Lena.C16
 
 structure TestEl where
@@ -40,16 +44,29 @@ structure TestEl where
   /-- `fill` raises `LenaStopFill` for every value `≥ stop` -/
   stop : Option Int := none
   stores : Bool := false
+  /-- the number of results depends on the state: `k` when an odd number of values is held, none otherwise -/
+  kpar : Bool := false
 
 def results (k : Nat) (s : List Int) : List (List Int) := (List.range k).map (fun (j : Nat) => (j : Int) :: s)
 
+def kOf (t : TestEl) (s : List Int) : Nat := if t.kpar then (if s.length % 2 == 1 then t.k else 0) else t.k
+
 def baseEl (t : TestEl) : El (List Int) Int (List Int) where
   fill s x := s ++ [x]
-  req s := (results t.k s, if t.mutates then s ++ [-1] else s)
+  req s := (results (kOf t s) s, if t.mutates then s ++ [-1] else s)
   reset _ := []
   run s xs :=
     if t.map then (xs.map (fun x => [x + 100]), s)
-    else let s' := s ++ xs; (results t.k s', if t.mutates then s' ++ [-1] else s')
+    else let s' := s ++ xs; (results (kOf t s') s', if t.mutates then s' ++ [-1] else s')
+
+/-- the Run test element that reads at most `j` values of its block (`none`: the whole block, running into its end) -/
+def readEl (t : TestEl) (j : Option Nat) : ElR (List Int) Int (List Int) where
+  run s b :=
+    let c := match j with | none => b.length | some j => min j b.length
+    let s' := s ++ b.take c
+    (results (kOf t s') s', if t.mutates then s' ++ [-1] else s', c,
+      match j with | none => true | some j => decide (b.length < j))
+  reset _ := []
 
 def preOf (c : Nat) (x : Int) : List Int :=
   match c with
@@ -80,7 +97,7 @@ def parseEl (j : Json) : Option TestEl := do
     | some v => if v then 1 else 0
     | none => (nat? (getD j key)).getD 0
   some { k := k, mutates := b "mut", map := b "map", pre := c "pre", post := c "post",
-         stop := int? (getD j "stop"), stores := b "stores" }
+         stop := int? (getD j "stop"), stores := b "stores", kpar := b "kpar" }
 
 def parseOpsX (j : Json) : Option (List (OpX Int)) := do
   let a ← arr? j
@@ -116,7 +133,9 @@ def parseCfg (j : Json) : Option (Except InitErr Cfg) := do
   let bi ← bool? (getD j "bi")
   let bo ← bool? (getD j "bo")
   let yor ← bool? (getD j "yor")
-  some (mkFillRequest caps n rst bi bo yor)
+  -- "frac": `bufsize != int(bufsize)` (a float such as 2.5); "bufsize" is then int(bufsize)
+  let frac := (bool? (getD j "frac")).getD false
+  some (mkFillRequestF caps n frac rst bi bo yor)
 
 def errJson : InitErr → Json
   | .typeError => Json.mkObj [("e", "LenaTypeError")]
@@ -132,7 +151,8 @@ def parseOps (j : Json) : Option (List (Op Int)) := do
 def contractOf (j : Json) : Json :=
   match parseCaps (getD j "caps"), int? (getD j "bufsize"), optBool (getD j "reset"), bool? (getD j "bi"),
       bool? (getD j "bo"), bool? (getD j "yor") with
-  | some caps, some n, some rst, some bi, some bo, some yor => Json.bool (initContract caps n rst bi bo yor)
+  | some caps, some n, some rst, some bi, some bo, some yor =>
+    Json.bool (initContract caps (if (bool? (getD j "frac")).getD false then 0 else n) rst bi bo yor)
   | _, _, _, _, _, _ => Json.null
 
 def handle (j : Json) : Json :=
@@ -197,17 +217,42 @@ def handle (j : Json) : Json :=
           | some sp => sp == trOuts.flatten
           | none => true
         let recOk := ((rr.1.flatten ++ rr.2.bufOut).flatten ++ rr.2.el ++ rr.2.bufIn) == vals
-        Json.mkObj [("t", ofList (fun (r : Option (List (List Int)) × Nat × Nat × Nat) =>
+        -- "xs2": afterwards the same adapter runs a flow (`run` does not look at the fill counter or the buffers)
+        let after : List (String × Json) := match intList? (getD j "xs2") with
+          | some xs2 => [("r2", ofOuts (runFR e c ro.2.el xs2).1)]
+          | none => []
+        Json.mkObj ([("t", ofList (fun (r : Option (List (List Int)) × Nat × Nat × Nat) =>
             Json.arr #[ofOpt ofOuts r.1, ofNat r.2.1, ofNat r.2.2.1, ofNat r.2.2.2]) tr),
           ("chk", Json.arr #[Json.bool oOk, Json.bool (fills ops == vals),
             Json.bool (invOps e N c.reset c.bufferInput c.yor ops (St.init [])), Json.bool specOk, Json.bool recOk])]
+          ++ after)
       | _, _ => err "bad ops args"
     | some "split" =>
       match parseEl (getD j "el"), intList? (getD j "xs") with
       | some t, some xs =>
         let mj := getD j "m"
         match (if mj.isNull then some none else (nat? mj).map some : Option (Option Nat)) with
-        | some m => Json.mkObj [("r", ofOuts (splitFR (testEl t) c.bufsize c.reset c.bufferInput c.yor m [] xs))]
+        | some m =>
+          -- "apre"/"apost": elements before / after the ADAPTER in the branch `(f, FillRequest(el, ...), g)`:
+          -- Split fills the adapter with what `f` makes of each value and `g` transforms what each request() yields
+          let apre := (nat? (getD j "apre")).getD 0
+          let apost := (nat? (getD j "apost")).getD 0
+          let e := baseEl t
+          let opsOf (ys : List Int) : List (Op Int) :=
+            if ys.isEmpty then [.request]
+            else (splitBlocks m ys).flatMap (fun b => (b.flatMap (preOf apre)).map Op.fill ++ [.request])
+          let r1 := runOps e c.bufsize c.reset c.bufferInput c.yor (opsOf xs) (St.init [])
+          let out1 := (r1.1.map (postOf apost)).flatten
+          let base : List (String × Json) :=
+            if apre == 0 && apost == 0 then
+              [("r", ofOuts (splitFR (testEl t) c.bufsize c.reset c.bufferInput c.yor m [] xs))]
+            else [("r", ofOuts out1)]
+          -- "xs2": the same Split object runs a second flow
+          match intList? (getD j "xs2") with
+          | some xs2 =>
+            let r2 := runOps e c.bufsize c.reset c.bufferInput c.yor (opsOf xs2) r1.2
+            Json.mkObj (base ++ [("r2", ofOuts (r2.1.map (postOf apost)).flatten)])
+          | none => Json.mkObj base
         | none => err "bad split bufsize"
       | _, _ => err "bad split args"
     | some "opsx" =>
@@ -248,6 +293,16 @@ def handle (j : Json) : Json :=
         let r := runFillComputeX (testElX t) c.bufsize c.reset c.yor [] xs
         Json.mkObj [("r", ofOuts r.1), ("raised", Json.bool r.2.2)]
       | _, _ => err "bad runx args"
+    | some "runp" =>
+      -- a Run element that reads at most "j" values of its block (null: all): `_run_run`, and the statement's reading
+      match parseEl (getD j "el"), intList? (getD j "xs") with
+      | some t, some xs =>
+        let jr : Option Nat := nat? (getD j "j")
+        let e := readEl t jr
+        let r := runRunP e c.bufsize c.reset c.bufferInput c.yor [] xs
+        Json.mkObj [("r", ofOuts r.1), ("spin", Json.bool r.2),
+          ("spec", ofOuts (specBlocksP e c.bufsize c.reset c.yor [] (chunks c.bufsize xs)))]
+      | _, _ => err "bad runp args"
     | _ => err "unknown op"
 
 def main : IO Unit := run handle
